@@ -252,8 +252,8 @@ def oracle (fn : String) (args : List String) (implOut : List String) : Option S
     | hex :: _, _ :: _ :: _ :: reser :: _ =>
       match bytesOfHex hex, bytesOfHex reser with
       | some inp, some out =>
-        if inp.length = 32 then
-          match frameViolation inp out [] with
+        if inp.length ≥ 32 then
+          match frameViolation (inp.take 32) out [] with
           | some i => some s!"C18 slot-reserialize byte{i}"
           | none => if out.length = 32 then none else some "C18 slot-reserialize length"
         else none
@@ -265,8 +265,8 @@ def oracle (fn : String) (args : List String) (implOut : List String) : Option S
       if outHex = "none" || outHex = "PANIC" then none else
       match bytesOfHex hex, bytesOfHex outHex with
       | some inp, some out =>
-        if inp.length = 32 then
-          if out.length = 32 then setTimesOracle inp c a m out else some "C18 set-times-frame length"
+        if inp.length ≥ 32 then
+          if out.length = 32 then setTimesOracle (inp.take 32) c a m out else some "C18 set-times-frame length"
         else none
       | _, _ => none
     | _, _ => none
